@@ -42,8 +42,10 @@ def run(tier):
     EC.obligations_of(reg, R, jobs)
     # link (1) on the float side: the stopping width of the root finder is never below the spacing of floats at the bracket, so a
     # sign-changing bracket that has collapsed to adjacent floats is accepted at any magnitude of t (lemma over _bracket_tol, props/C14.py)
-    from . import C14
+    from . import C14, events as EV
     R.under_contract(C14.check_bracket_tol(reg, src, PID))
+    # ... and the samples that classify a located crossing stay distinct from the root at any magnitude of t (lemma over _probe_offset)
+    R.under_contract(EV.check_probe_offset(reg, src, PID))
     for name in ("handle_events", "prepare_events", "OdeSystem.integrate", "DenseOutput.add_interpolant", "DenseOutput.remove_interpolant", "DenseOutput.__len__"):
         R.under_contract(src.func(IC.F, name))
     return EC.finish(R, reg, ["C08"], tier, "native event family (number of reported crossings = number of exact crossings; scales 1e-6..1e6, steep events, 1..6 events, both directions, dense on/off, crossings on step boundaries)")
